@@ -357,7 +357,9 @@ namespace msgpack {
                         auto nanoseconds = static_cast<int64_t>(rem);
                         if (nanoseconds < 0)
                         {
-                            nanoseconds = -nanoseconds; 
+                            // floor division: the nanoseconds field of a timestamp is always added to the seconds
+                            nanoseconds += static_cast<int64_t>(nanos_in_second);
+                            seconds -= 1;
                         }
                         write_timestamp(seconds, nanoseconds);
                     }
@@ -573,7 +575,9 @@ namespace msgpack {
                         int64_t nanoseconds = dv.rem;
                         if (nanoseconds < 0)
                         {
-                            nanoseconds = -nanoseconds; 
+                            // floor division: the nanoseconds field of a timestamp is always added to the seconds
+                            nanoseconds += static_cast<int64_t>(nanos_in_second);
+                            seconds -= 1;
                         }
                         write_timestamp(seconds, nanoseconds);
                     }
